@@ -108,6 +108,12 @@ class C08(vlib.Check):
                         yield c
                     for c in self.ba_cases(b'p' + near + b'q', sep, ('cs', 'ci')):
                         yield c
+        # long subjects: the separator straddling every 1 KiB boundary counted from either end
+        for subj, sep, o in block_boundary_subjects(rng, thorough):
+            for c in self.ba_cases(subj, sep, ('cs',)):
+                yield c
+            for c in self.ba_cases(subj.swapcase(), sep, ('ci',)):
+                yield c
         for _ in range(1500 if not thorough else 30000):
             n = rng.choice([5, 6, 7, 8, 15, 16, 17, 18, 31, 40, 100, 300]) if rng.random() < 0.3 else rng.randrange(5, 10)
             s = rand_bytes(rng, n, rng.choice([b'ab', b'aA-', b'ab\x00', b'abcABC\xc3\xa9\x00-']))
